@@ -32,6 +32,11 @@ fn settings() -> Vec<Setting> {
     for (p, lower) in [("semver_str", false), ("pep440_local_str", true), ("key", true)] {
         v.push(Setting { name: format!("preset={p}"), sep: Some("."), lower, keep: false, max: None, preset: Some(p) });
     }
+    // multi-character separators, incl. ones that mean something to a regex replacement ($_, $$, $1, ${x}) or to an escape
+    // (a separator that itself contains a letter or digit is outside the statement: it could not be idempotent)
+    for sep in ["$", "$_", "$$", "${_}", "$-", "$$$", "--", "\\", ".*", "→→"] { for lower in [false, true] { for keep in [false, true] {
+        v.push(Setting { name: format!("sep={sep:?},lower={lower},keep={keep},max=None"), sep: Some(sep), lower, keep, max: None, preset: None });
+    }}}
     v.push(Setting { name: "preset=uint".into(), sep: None, lower: false, keep: false, max: None, preset: Some("uint") });
     v
 }
@@ -86,6 +91,15 @@ fn judge(x: &str, s: &Setting, z: &Sanitizer, st: &mut Stats) -> Option<(String,
         }
         return None;
     };
+    if sep.chars().count() > 1 {
+        // multi-character separators (only generated without max_length): exact equality with R-SAN and idempotence
+        st.inc("clause_multichar_separator");
+        let full = san::san(x, sep, s.lower, s.keep);
+        if out != full { return Some(("I6_model_mismatch".into(), format!("out {out:?}, contract {full:?}"))); }
+        // idempotent only if the separator cannot itself be re-split differently: re-sanitising must give the same text
+        if again != out { return Some(("I5_idempotence".into(), format!("s(x)={out:?} s(s(x))={again:?}"))); }
+        return None;
+    }
     let sepc = sep.chars().next().unwrap();
     if let Some(inv) = san::invariants(&out, sepc, s.keep, s.max) {
         return Some((inv.to_string(), format!("out {out:?}")));
